@@ -2,6 +2,7 @@ package props
 
 import (
 	"fmt"
+	"runtime/debug"
 
 	"github.com/openacid/low/bitmap"
 
@@ -14,13 +15,14 @@ import (
 type c02Case struct {
 	Words gen.Words `json:"words"`
 	I     int32     `json:"i"`
+	Then  gen.Words `json:"then,omitempty"` // "retained": the bitmap indexed afterwards
 }
 
 func init() {
 	mc.Register(&mc.Property{
 		ID:    "C02",
 		Level: "exploration",
-		Rule: "E1 bounded-exhaustive enumeration: every bitmap of B(n,0) ∪ B1(m) (as C01) plus long sparse bitmaps (exactly L words, all zero except ≤2-3 islands from a 10-word island alphabet of popcounts 1,2,31,32,33,63,64 at every combination of positions, L up to 70, thorough 130) and the byte-lane sweep (every byte value in every lane under every 0x00/0xff configuration of the other lanes, deduplicated, embedded as [w], [0,w] and [^0,w,0,1]) " +
+		Rule: "E1 bounded-exhaustive enumeration: every bitmap of B(n,0) ∪ B1(m) (as C01) plus long sparse bitmaps (exactly L words, all zero except ≤2-3 islands from a 10-word island alphabet of popcounts 1,2,31,32,33,63,64 at every combination of positions, L up to 70, thorough 130) a length sweep (every length 0..N words × 4 patterns, with every returned index re-checked after the next bitmap has been indexed) and the byte-lane sweep (every byte value in every lane under every 0x00/0xff configuration of the other lanes, deduplicated, embedded as [w], [0,w] and [^0,w,0,1]) " +
 			"× {IndexSelect32, IndexSelect32R64} and × every i in [0, ones) × {Select32, Select32R64}; oracle = list of 1-positions from a bit-by-bit scan. " +
 			"A case is one (bitmap, i, function) or (bitmap, index function); non-trivial when the bitmap has ≥2 ones and at least one 0. i ≥ ones is outside the statement and not called.",
 		Assumptions: []string{
@@ -264,6 +266,57 @@ func c02Run(c *mc.Ctx) {
 			c.Add("sparse_long_bitmaps", bitmaps)
 		})
 	}
+	// length sweep: every length 0..N × 4 patterns, one goroutine, collector off; every returned
+	// index is compared once more after the NEXT bitmap has been indexed
+	{
+		maxLen := c.Pick(520, 2100)
+		c.Set("length_sweep_max_words", maxLen)
+		func() {
+			defer debug.SetGCPercent(debug.SetGCPercent(-1))
+			type kept struct {
+				w          []uint64
+				s1, s2, r2 []int32
+				ws, wr     []int32
+			}
+			var prev *kept
+			var evals int64
+			var ones []int32
+			for l := 0; l <= maxLen && !c.TooMany(); l++ {
+				for p := 0; p < 4; p++ {
+					w := c01SweepBitmap(l, p)
+					order := int64(2)<<56 | int64(l)<<8 | int64(p)
+					var e int64
+					e, _, ones = c02One(c, order, w, ones)
+					evals += e
+					c.Expect(e)
+					// keep what the library returned for this bitmap
+					cur := &kept{w: w}
+					cur.s1, _ = idxSel32(w)
+					cur.s2, cur.r2, _ = idxSel32R64(w)
+					for k := 0; k < len(ones); k += 32 {
+						cur.ws = append(cur.ws, ones[k])
+					}
+					run := int32(0)
+					for _, x := range w {
+						cur.wr = append(cur.wr, run)
+						run += naivePop(x)
+					}
+					cur.wr = append(cur.wr, run)
+					if prev != nil {
+						if !eqI32(prev.s1, prev.ws) || !eqI32(prev.s2, prev.ws) || !eqI32(prev.r2, prev.wr) {
+							c.Fail(order, "retained", "retained", c02Case{Words: append(gen.Words(nil), prev.w...), Then: append(gen.Words(nil), w...)}, "", "")
+							prev.s1, prev.s2, prev.r2 = prev.ws, prev.ws, prev.wr
+						}
+						evals++
+						c.Expect(1)
+					}
+					prev = cur
+				}
+			}
+			c.Count(evals, evals)
+			c.Add("length_sweep_bitmaps", int64(4*(maxLen+1)))
+		}()
+	}
 	// lane sweep
 	const chunk = 4096
 	nch := (len(lanes) + chunk - 1) / chunk
@@ -313,6 +366,13 @@ func c02Judge(kind string, cs c02Case) (got, want string) {
 	}
 	wantR = append(wantR, run)
 	switch kind {
+	case "retained":
+		defer debug.SetGCPercent(debug.SetGCPercent(-1))
+		a1, _ := idxSel32(w)
+		a2, a3, _ := idxSel32R64(w)
+		idxSel32([]uint64(cs.Then))
+		idxSel32R64([]uint64(cs.Then))
+		return fmt.Sprint("after indexing another bitmap: ", a1, a2, a3), fmt.Sprint("after indexing another bitmap: ", wantS, wantS, wantR)
 	case "IndexSelect32":
 		s, p := idxSel32(w)
 		return p + fmt.Sprint(s), fmt.Sprint(wantS)
